@@ -263,6 +263,51 @@ def r5_visibility_arguments(chk, prog, rule='R5'):
     return n
 
 
+def r7_extras(chk, prog, rule='R7'):
+    """'plus default value, checks and constraints where configured': in the printing loop every extra line of an
+    argument depends on its own property only - whenever the property holds (its test did not say 'no'), the text
+    source of that extra is appended before the description is formatted, whatever the other properties are"""
+    from ..rules import implied_edges
+    f = prog.one('celma::prog_args::detail::ArgumentDesc', 'printArguments')
+    cfg = f.cfg
+    fmts = [c for c in f.calls() if callee_is(c, 'TextBlock::format')]
+    chk.require(fmts, 'printArguments: formatting of the description not found')
+    # (property test, text source, name, further tests that legitimately switch the extra off: (getter, value))
+    pairs = (('printDefault', 'defaultValue', 'default value', (('isMandatory', True),)),
+             ('hasCheck', 'checkStr', 'check', ()),
+             ('hasConstraint', 'constraintStr', 'constraint', ()), ('isHidden', None, '[hidden] mark', ()))
+    loops = loops_in(f)
+    chk.require(loops, 'printArguments: loop over the arguments not found')
+    h = loop_header(cfg, loops[0])
+    body = cfg.succ[h][0]
+    n = 0
+    for pred, src, what, also in pairs:
+        tests = [c for c in f.calls() if (c.get('callee') or '').endswith('::' + pred)]
+        if not tests:
+            raise AnalysisBroken('printArguments: no test of %s()' % pred)
+        if src is not None:
+            texts = [c for c in f.calls() if (c.get('callee') or '').endswith('::' + src)]
+        else:
+            texts = [c for c in f.calls() if any(x.get('k') == 'StringLiteral' and 'hidden' in (x.get('val') or x.get('str') or '')
+                                                for x in walk(c))]
+        if not texts:
+            raise AnalysisBroken('printArguments: text source of the %s not found' % what)
+        off = implied_edges(f, lambda c_: c_.get('k') in CALL_KINDS and (c_.get('callee') or '').endswith('::' + pred),
+                            False)
+        for getter, val in also:
+            off |= implied_edges(f, lambda c_, g_=getter: c_.get('k') in CALL_KINDS and
+                                 (c_.get('callee') or '').endswith('::' + g_), val)
+        ids = {t['id'] for t in texts}
+        seen = cfg.reach((body, 0), lambda p_, e: p_[0] == h or (isinstance(e, int) and e in ids), blocked_edges=off)
+        n += 1
+        bad = any(cfg.position(c) in seen for c in fmts)
+        chk.check(bool(off) and not bad, rule, f.name, 'the %s of an argument is listed whenever it is configured '
+                  '(independent of the other extras)' % what, f.loc(tests[0]),
+                  'the description can be formatted without the %s although %s() did not say no (the extra depends on '
+                  'another property as well)' % (what, pred))
+    return n
+
+
 def r4_one_settings_object(chk, prog):
     """'visible under the CURRENT settings': the usage settings (print hidden / deprecated, short-only / long-only)
     live in one UsageParams object per handler family; the arguments that change them at run time write into that
@@ -336,6 +381,8 @@ def run(chk):
     r4_one_settings_object(chk, prog)
     chk.rule('R5', 'every visibility decision uses the current settings (column-width pass == printing pass)', 3)
     r5_visibility_arguments(chk, prog)
+    chk.rule('R7', 'default value, check, constraint and hidden mark are listed whenever configured', 4)
+    r7_extras(chk, prog)
     # R6: the description text is formatted by TextBlock: no word of it is lost (C17-R1, same unit)
     from . import c17
     chk.rule('R6', 'the description of a listed argument is printed completely (text-block rules of C17)', 5)
